@@ -1102,6 +1102,32 @@ def g_ctor(rng, n):
                         key = key + [0]
                     kv.append([key, int(rng.integers(1, 4))])
             yield case("DOK(shape,data)", "ctor", [], [shp] + ([{"kv": kv}] if kv or rng.random() < 0.5 else []), {}, "ctor", chunk="ctor")
+        elif r < 0.765:
+            # 1-d and 3-d GCXS triples: the uncompressed extent is shape[0] / the product of the uncompressed axes
+            if rng.random() < 0.5:
+                n = int(rng.choice(EXT))
+                indices = sorted(int(v) for v in rng.choice(n, size=int(rng.integers(0, n + 1)), replace=False)) if n else []
+                kw, indptr, cols = {"shape": [n]}, [], n
+            else:
+                shp3 = [int(rng.choice([1, 2])) for _ in range(3)]
+                ca = [[0], [1], [2], [0, 1], [0, 2], [1, 2]][int(rng.integers(6))]
+                rows = int(np.prod([shp3[a] for a in ca]))
+                cols = int(np.prod([s_ for i_, s_ in enumerate(shp3) if i_ not in ca]))
+                indices, indptr = [], [0]
+                for _r in range(rows):
+                    indices += sorted(int(v) for v in rng.choice(cols, size=int(rng.integers(0, cols + 1)), replace=False))
+                    indptr.append(len(indices))
+                kw = {"shape": shp3, "compressed_axes": ca}
+            data = [int(v) for v in rng.integers(1, 4, size=len(indices))]
+            q = rng.random()
+            if q < 0.25 and indices:
+                indices[int(rng.integers(len(indices)))] = int(rng.choice([cols, cols + 1, -1]))
+            elif q < 0.35:
+                data = data + [1]
+            elif q < 0.45 and len(indptr) >= 3:
+                indptr[int(rng.integers(1, len(indptr) - 1))] = len(indices) + 1
+            trip = [{"a": data, "dtype": "int64"}, {"a": indices, "dtype": "int64"}, {"a": indptr, "dtype": "int64"}]
+            yield case("GCXS(triple,shape,ca)", "ctor", [], [trip], kw, "ctor", chunk="ctor")
         elif r < 0.88:
             rows, cols = int(rng.choice(EXT)), int(rng.choice(EXT))
             d = gen.dense(rng, (rows, cols), 0)
